@@ -327,6 +327,212 @@ theorem processSeq_sync_async (evs : List Ev) (E : Eng) :
     have h2 := ih (drain false maxChainDepth E [e]).eng
     exact ⟨h2.1, by rw [h2.2]⟩
 
+/-! ## C23: load / reload -/
+
+/-- stream names are unique -/
+def NamesNodup (l : List SDef) : Prop := (l.map (·.name)).Nodup
+
+/-- `E` is an engine on which program `P` was loaded and which then only processed events -/
+structure Loaded (P : List SDef) (E : Eng) : Prop where
+  streams : E.streams = (load P).streams
+  router : E.router = (load P).router
+  clean : ∀ s, E.find s = none → E.hist s = []
+
+theorem register_names_nodup (E : Eng) (d : SDef) (h : NamesNodup E.streams) : NamesNodup (register E d).streams := by
+  simp only [NamesNodup, register, List.map_append, List.map_cons, List.map_nil]
+  refine List.nodup_append.mpr ⟨?_, by simp, ?_⟩
+  · exact (List.Sublist.map _ List.filter_sublist).nodup h
+  · intro a ha b hb
+    simp at hb; subst hb
+    obtain ⟨x, hx, rfl⟩ := List.mem_map.mp ha
+    have := (List.mem_filter.mp hx).2
+    simpa using this
+
+theorem foldl_register_names_nodup (P : List SDef) (E : Eng) (h : NamesNodup E.streams) :
+    NamesNodup (P.foldl register E).streams := by
+  induction P generalizing E with
+  | nil => exact h
+  | cons d ds ih => exact ih _ (register_names_nodup E d h)
+
+theorem load_names_nodup (P : List SDef) : NamesNodup (load P).streams :=
+  foldl_register_names_nodup P emptyEng (by simp [NamesNodup, emptyEng])
+
+theorem find_of_mem {l : List SDef} (h : NamesNodup l) {d : SDef} (hd : d ∈ l) :
+    l.find? (fun x => x.name == d.name) = some d := by
+  induction l with
+  | nil => cases hd
+  | cons x xs ih =>
+    simp only [NamesNodup, List.map_cons, List.nodup_cons] at h
+    simp only [List.find?]
+    rcases List.mem_cons.mp hd with h1 | h1
+    · subst h1; simp
+    · have hne : x.name ≠ d.name := by
+        intro he; exact h.1 (he ▸ List.mem_map_of_mem (f := (·.name)) h1)
+      have : (x.name == d.name) = false := by simp [hne]
+      simp only [this]
+      exact ih h.2 h1
+
+theorem foldl_register_hist_nil (P : List SDef) (E : Eng) (s : Ty) (h : E.hist s = []) :
+    (P.foldl register E).hist s = [] := by
+  induction P generalizing E with
+  | nil => exact h
+  | cons d ds ih =>
+    apply ih
+    simp only [register, setHist]
+    split <;> simp [h]
+
+theorem load_hist_nil (P : List SDef) (s : Ty) : (load P).hist s = [] :=
+  foldl_register_hist_nil P emptyEng s rfl
+
+theorem loaded_load (P : List SDef) : Loaded P (load P) := ⟨rfl, rfl, fun s _ => load_hist_nil P s⟩
+
+theorem dispatch_hist_none (sync : Bool) (e : Ev) (ns : List Ty) (E : Eng) (s : Ty) (h : E.find s = none) :
+    (dispatch sync E e ns).eng.hist s = E.hist s := by
+  induction ns generalizing E with
+  | nil => simp [dispatch]
+  | cons n rest ih =>
+    unfold dispatch
+    cases hf : E.find n with
+    | none => exact ih E h
+    | some d =>
+      simp only
+      rw [ih _ (by simpa using h)]
+      have : s ≠ n := by intro he; subst he; rw [h] at hf; cases hf
+      simp [setHist, this]
+
+theorem level_hist_none (sync : Bool) (q : List Ev) (E : Eng) (s : Ty) (h : E.find s = none) :
+    (level sync E q).eng.hist s = E.hist s := by
+  induction q generalizing E with
+  | nil => simp [level]
+  | cons e es ih =>
+    simp only [level]
+    have fr := dispatch_frame sync e (routesOf E.router e.ty) E
+    rw [ih _ (by rw [find_congr fr.1]; exact h)]
+    exact dispatch_hist_none sync e _ E s h
+
+theorem drain_hist_none (sync : Bool) (n : Nat) (E : Eng) (q : List Ev) (s : Ty) (h : E.find s = none) :
+    (drain sync n E q).eng.hist s = E.hist s := by
+  induction n generalizing E q with
+  | zero => simp [drain]
+  | succ n ih =>
+    simp only [drain]
+    have fr := level_frame sync q E
+    rw [ih _ _ (by rw [find_congr fr.1]; exact h)]
+    exact level_hist_none sync q E s h
+
+theorem processSeq_hist_none (sync : Bool) (evs : List Ev) (E : Eng) (s : Ty) (h : E.find s = none) :
+    (processSeq sync E evs).eng.hist s = E.hist s := by
+  induction evs generalizing E with
+  | nil => simp [processSeq]
+  | cons e es ih =>
+    simp only [processSeq, processOne]
+    have fr := drain_frame sync maxChainDepth E [e]
+    rw [ih _ (by rw [find_congr fr.1]; exact h)]
+    exact drain_hist_none sync maxChainDepth E [e] s h
+
+/-- processing events (on any entry point) keeps an engine `Loaded` -/
+theorem loaded_processSeq (sync : Bool) (P : List SDef) (E : Eng) (evs : List Ev) (h : Loaded P E) :
+    Loaded P (processSeq sync E evs).eng := by
+  have fr := processSeq_frame sync evs E
+  refine ⟨fr.1.trans h.streams, fr.2.trans h.router, ?_⟩
+  intro s hs
+  have hs' : E.find s = none := by rw [← find_congr fr.1]; exact hs
+  rw [processSeq_hist_none sync evs E s hs']
+  exact h.clean s hs'
+
+theorem changed_self (d : SDef) : changed d d = false := by
+  simp [changed, sameSet]
+
+theorem reloadPick_name (chg : SDef → SDef → Bool) (E : Eng) (d' : SDef) : (reloadPick chg E d').name = d'.name := by
+  unfold reloadPick
+  cases hf : E.find d'.name with
+  | none => rfl
+  | some d =>
+    have : d.name = d'.name := by
+      have := List.find?_some hf
+      simpa using this
+    simp only
+    split <;> simp [this]
+
+theorem find_map_pick (chg : SDef → SDef → Bool) (E : Eng) (l : List SDef) (s : Ty) :
+    (l.map (reloadPick chg E)).find? (fun d => d.name == s) = (l.find? (fun d => d.name == s)).map (reloadPick chg E) := by
+  induction l with
+  | nil => rfl
+  | cons x xs ih =>
+    simp only [List.map_cons, List.find?, reloadPick_name]
+    cases hx : (x.name == s) with
+    | true => simp
+    | false => simpa using ih
+
+/-- `reload P` on an engine loaded with `P` (and having processed anything since) is the identity -/
+theorem reload_same (P : List SDef) (E : Eng) (h : Loaded P E) : reload E P = E := by
+  have hn := load_names_nodup P
+  have hfind : ∀ s, E.find s = (load P).find s := fun s => find_congr h.streams s
+  have hstreams : (load P).streams.map (reloadPick changed E) = E.streams := by
+    rw [h.streams]
+    conv => rhs; rw [← List.map_id (load P).streams]
+    apply List.map_congr_left
+    intro d hd
+    have : E.find d.name = some d := by rw [hfind]; exact find_of_mem hn hd
+    simp [reloadPick, this, changed_self]
+  have hhist : (fun s => if keeps changed E (load P) s then E.hist s else []) = E.hist := by
+    funext s
+    have hk : keeps changed E (load P) s = ((load P).find s).isSome := by
+      simp only [keeps, hfind]
+      cases (load P).find s with
+      | none => rfl
+      | some d => simp [changed_self]
+    rw [hk]
+    cases hf : (load P).find s with
+    | none => simpa using (h.clean s (by rw [hfind]; exact hf)).symm
+    | some d => simp
+  have hr := h.router
+  cases E with
+  | mk st ro hi =>
+    simp only [reload]
+    simp only at hstreams hhist hr
+    rw [hstreams, hhist, ← hr]
+
+/-- after `reload P'` the router is the one a fresh load of `P'` builds -/
+theorem reload_router (E : Eng) (P' : List SDef) : (reload E P').router = (load P').router := rfl
+
+theorem reload_find (E : Eng) (P' : List SDef) (s : Ty) :
+    (reload E P').find s = ((load P').find s).map (reloadPick changed E) := by
+  simp only [reload, Eng.find]
+  exact find_map_pick changed E _ s
+
+/-- a stream that is new or whose declaration changed is, after `reload P'`, exactly what a fresh load of
+`P'` makes it: the new definition with empty state -/
+theorem reload_changed_fresh (E : Eng) (P' : List SDef) (d' : SDef) (hd : (load P').find d'.name = some d')
+    (hc : E.find d'.name = none ∨ ∃ d, E.find d'.name = some d ∧ changed d d' = true) :
+    (reload E P').find d'.name = some d' ∧ (reload E P').hist d'.name = [] := by
+  constructor
+  · rw [reload_find, hd]
+    rcases hc with hc | ⟨d, hf, hch⟩
+    · simp [reloadPick, hc]
+    · simp [reloadPick, hf, hch]
+  · simp only [reload, keeps, hd]
+    rcases hc with hc | ⟨d, hf, hch⟩
+    · simp [hc]
+    · simp [hf, hch]
+
+/-- a stream whose declaration did not change keeps its definition and its state -/
+theorem reload_unchanged_kept (E : Eng) (P' : List SDef) (d d' : SDef) (hd : (load P').find d'.name = some d')
+    (hf : E.find d'.name = some d) (hch : changed d d' = false) :
+    (reload E P').find d'.name = some d ∧ (reload E P').hist d'.name = E.hist d'.name := by
+  constructor
+  · rw [reload_find, hd]; simp [reloadPick, hf, hch]
+  · simp [reload, keeps, hd, hf, hch]
+
+/-- a stream that is not declared in `P'` is gone -/
+theorem reload_removed (E : Eng) (P' : List SDef) (s : Ty) (h : (load P').find s = none) :
+    (reload E P').find s = none ∧ (reload E P').hist s = [] := by
+  constructor
+  · rw [reload_find, h]; rfl
+  · simp only [reload, keeps, h]
+    cases E.find s <;> simp
+
+
 /-! ## What was wrong before the repairs (concrete witnesses on the `legacy*` definitions) -/
 
 /-- a stream with `.emit`: every handed event is emitted (and output) under the stream's name -/
@@ -390,5 +596,26 @@ type instead of the stream name -/
 theorem legacy_sync_process_type :
     let E := load [processStream 10 [0] 20]
     (legacyDrainSync maxChainDepth E [⟨0, 1⟩]).sent = [⟨20, 1⟩] ∧ (perEvent E [⟨0, 1⟩]).sent = [⟨10, 1⟩] := by decide
+
+/-- `S = A as a -> B as b` (registered for `A` and `B`, primary source `A`): the pre-repair `reload` of
+the *same* program dropped the `B` route, so the sequence never completed again -/
+theorem legacy_reload_sequence_starves :
+    let S : SDef := { joinStream 10 [0, 1] with prim := [0], isJoin := false }
+    let E := (perEvent (load [S]) [⟨0, 1⟩]).eng
+    (perEvent (legacyReload E [S]) [⟨1, 2⟩]).sent = [] ∧ (perEvent E [⟨1, 2⟩]).sent = [⟨10, 2⟩] ∧
+    (perEvent (reload E [S]) [⟨1, 2⟩]).sent = [⟨10, 2⟩] := by decide
+
+/-- a join has no primary source at all: after the pre-repair `reload` it received nothing -/
+theorem legacy_reload_join_starves :
+    let E := load [joinStream 10 [0, 1]]
+    routesOf (legacyReload E [joinStream 10 [0, 1]]).router 0 = [] ∧ routesOf (reload E [joinStream 10 [0, 1]]).router 0 = [10] := by decide
+
+/-- an edit that keeps source and operation count (`.where(x > 0)` → `.where(x > 10)`): the pre-repair
+`reload` kept the old definition -/
+theorem legacy_reload_keeps_old_ops :
+    let old := emitStream 10 [0]
+    let new : SDef := { emitStream 10 [0] with defId := 99, resp := fun _ _ => { outs := [], emitted := [] } }
+    (perEvent (legacyReload (load [old]) [new]) [⟨0, 1⟩]).sent = [⟨10, 1⟩] ∧
+    (perEvent (reload (load [old]) [new]) [⟨0, 1⟩]).sent = [] := by decide
 
 end Varpulis.EngineRoute
